@@ -25,7 +25,7 @@ ASSUMPTIONS = ["vmon/tt.py truth tables (self-checked)", "brute-force graph algo
                "k-colouring names x_{vc} are decoded digit-wise (vertex and colour numbers are single digits in every case)",
                "beyond the cap (7-30 vertices) the formula is evaluated on constructed witnesses and their 1-3 flip perturbations against a direct predicate"]
 REQUIRED = ["exact_cases", "satisfiable_cases", "unsatisfiable_cases", "projected_cases", "opb_cases", "cnf_cases",
-            "networkx_inputs", "refused_expected", "tseitin_count_formula_checked", "sampled_cases", "sampled_true_references",
+            "networkx_inputs", "user_class_inputs", "refused_expected", "tseitin_count_formula_checked", "sampled_cases", "sampled_true_references",
             "sampled_false_references", "graph_object_histories", "tseitin_degree_9_or_more"] + ["family_" + f for f in
             ("tseitin", "kcolor", "ec", "domset", "tiling", "iso", "auto", "subgraph", "kclique", "kcliquebin", "ramlb")]
 CASE_TIMEOUT = {"quick": 300, "thorough": 1800}
@@ -40,7 +40,7 @@ def fam_count(ctx, fam, cls, as_nx=False):
     ctx.count("family_" + fam)
     ctx.count(cls.lower() + "_cases")
     if as_nx:
-        ctx.count("networkx_inputs")
+        S.count_rep(ctx, as_nx)
 
 
 def raised(ctx, fam, desc, exc, allowed=False):
@@ -110,7 +110,7 @@ def case_tseitin(ctx, cls, n, masks, as_nx):
         vectors = [None] + [list(bits) for bits in itertools.product([False, True], repeat=n)]
         vectors += [[int(b) for b in v] for v in vectors[1:3]] + CHARGE_EXTRAS
         for vi, ch in enumerate(vectors):
-            desc = "TseitinFormula(%s,charges=%r)[%s%s]" % (gdesc(n, E), ch, cls, ",nx" if as_nx else "")
+            desc = "TseitinFormula(%s,charges=%r)[%s%s]" % (gdesc(n, E), ch, cls, S.rep_tag(as_nx))
             arg = None if ch is None else list(ch)
             how = (vi + mask) % 6 if ch is not None and vi <= 2 ** n else 0
             if how in (1, 2, 3):
@@ -165,7 +165,7 @@ def case_kcolor(ctx, cls, n, masks, as_nx):
             for functional in (True, False):
                 if n * k > (cap if functional else min(cap, 12)):
                     continue
-                desc = "GraphColoringFormula(%s,%d,functional=%s)[%s%s]" % (gdesc(n, E), k, functional, cls, ",nx" if as_nx else "")
+                desc = "GraphColoringFormula(%s,%d,functional=%s)[%s%s]" % (gdesc(n, E), k, functional, cls, S.rep_tag(as_nx))
                 F, at = setup(ctx, "kcolor", cls, desc, g.GraphColoringFormula, G, k, functional=functional)
                 if F is None:
                     continue
@@ -199,7 +199,7 @@ def case_ec(ctx, cls, n, masks, as_nx):
         G, E = S.simple_graph(n, mask, as_nx)
         adj = adjacency(n, E)
         even = all(len(adj[v]) % 2 == 0 for v in adj)
-        desc = "EvenColoringFormula(%s)[%s%s]" % (gdesc(n, E), cls, ",nx" if as_nx else "")
+        desc = "EvenColoringFormula(%s)[%s%s]" % (gdesc(n, E), cls, S.rep_tag(as_nx))
         K = S.formula_classes()[cls]
         F, exc = S.build(ctx, "ec", desc, g.EvenColoringFormula, G, formula_class=K)
         fam_count(ctx, "ec", cls, as_nx)
@@ -254,7 +254,7 @@ def case_domset(ctx, cls, n, masks, as_nx):
             for alt in (False, True):
                 if n + n * d > cap:
                     continue
-                desc = "DominatingSet(%s,%d,alternative=%s)[%s%s]" % (gdesc(n, E), d, alt, cls, ",nx" if as_nx else "")
+                desc = "DominatingSet(%s,%d,alternative=%s)[%s%s]" % (gdesc(n, E), d, alt, cls, S.rep_tag(as_nx))
                 F, at = setup(ctx, "domset", cls, desc, g.DominatingSet, G, d, alternative=alt, allowed_refusal=(d == 0))
                 if F is None:
                     continue
@@ -281,7 +281,7 @@ def case_tiling(ctx, cls, n, masks, as_nx):
     for mask in masks:
         G, E = S.simple_graph(n, mask, as_nx)
         N = closed_nbhd(n, E)
-        desc = "Tiling(%s)[%s%s]" % (gdesc(n, E), cls, ",nx" if as_nx else "")
+        desc = "Tiling(%s)[%s%s]" % (gdesc(n, E), cls, S.rep_tag(as_nx))
         F, at = setup(ctx, "tiling", cls, desc, g.Tiling, G)
         if F is None:
             continue
@@ -305,7 +305,7 @@ def case_iso(ctx, cls, n1, n2, pairs, as_nx):
     for (m1, m2) in pairs:
         G1, E1 = S.simple_graph(n1, m1, as_nx)
         G2, E2 = S.simple_graph(n2, m2, as_nx)
-        desc = "GraphIsomorphism(%s,%s)[%s%s]" % (gdesc(n1, E1), gdesc(n2, E2), cls, ",nx" if as_nx else "")
+        desc = "GraphIsomorphism(%s,%s)[%s%s]" % (gdesc(n1, E1), gdesc(n2, E2), cls, S.rep_tag(as_nx))
         F, at = setup(ctx, "iso", cls, desc, g.GraphIsomorphism, G1, G2)
         if F is None:
             continue
@@ -329,7 +329,7 @@ def case_auto(ctx, cls, n, masks, as_nx):
     g = gens()
     for mask in masks:
         G, E = S.simple_graph(n, mask, as_nx)
-        desc = "GraphAutomorphism(%s)[%s%s]" % (gdesc(n, E), cls, ",nx" if as_nx else "")
+        desc = "GraphAutomorphism(%s)[%s%s]" % (gdesc(n, E), cls, S.rep_tag(as_nx))
         F, at = setup(ctx, "auto", cls, desc, g.GraphAutomorphism, G)
         if F is None:
             continue
@@ -377,7 +377,7 @@ def case_subgraph(ctx, cls, N, k, gmasks, hmasks, as_nx):
                     G, EG = S.simple_graph(N, gm, as_nx)
                     H, EH = S.simple_graph(k, hm, as_nx)
                     desc = "SubgraphFormula(%s,%s,induced=%s,symbreak=%s)[%s%s]" % (
-                        gdesc(N, EG), gdesc(k, EH), induced, symbreak, cls, ",nx" if as_nx else "")
+                        gdesc(N, EG), gdesc(k, EH), induced, symbreak, cls, S.rep_tag(as_nx))
                     F, at = setup(ctx, "subgraph", cls, desc, g.SubgraphFormula, G, H, induced=induced, symbreak=symbreak)
                     if F is None:
                         continue
@@ -409,7 +409,7 @@ def case_clique(ctx, cls, n, masks, as_nx):
             for symbreak in (True, False):
                 # unary encoding
                 if k * n <= cap:
-                    desc = "CliqueFormula(%s,%d,symbreak=%s)[%s%s]" % (gdesc(n, E), k, symbreak, cls, ",nx" if as_nx else "")
+                    desc = "CliqueFormula(%s,%d,symbreak=%s)[%s%s]" % (gdesc(n, E), k, symbreak, cls, S.rep_tag(as_nx))
                     F, at = setup(ctx, "kclique", cls, desc, g.CliqueFormula, G, k, symbreak=symbreak)
                     if F is not None:
                         fam_count(ctx, "kclique", cls, as_nx)
@@ -427,7 +427,7 @@ def case_clique(ctx, cls, n, masks, as_nx):
                 # binary encoding
                 bits = (n - 1).bit_length() if n >= 1 else 0
                 if k * bits <= cap:
-                    desc = "BinaryCliqueFormula(%s,%d,symbreak=%s)[%s%s]" % (gdesc(n, E), k, symbreak, cls, ",nx" if as_nx else "")
+                    desc = "BinaryCliqueFormula(%s,%d,symbreak=%s)[%s%s]" % (gdesc(n, E), k, symbreak, cls, S.rep_tag(as_nx))
                     F, at = setup(ctx, "kcliquebin", cls, desc, g.BinaryCliqueFormula, G, k, symbreak=symbreak,
                                   allowed_refusal=(k == 0 or n == 0))
                     if F is not None:
@@ -457,7 +457,7 @@ def case_ramlb(ctx, cls, n, masks, as_nx):
             for s_ in range(0, 5):
                 for symbreak in (True, False):
                     desc = "RamseyWitnessFormula(%s,%d,%d,symbreak=%s)[%s%s]" % (
-                        gdesc(n, E), k, s_, symbreak, cls, ",nx" if as_nx else "")
+                        gdesc(n, E), k, s_, symbreak, cls, S.rep_tag(as_nx))
                     K = S.formula_classes()[cls]
                     F, exc = S.build(ctx, "ramlb", desc, g.RamseyWitnessFormula, G, k, s_, symbreak=symbreak, formula_class=K)
                     if F is None:
@@ -532,8 +532,8 @@ def workload(tier, seed):
     gm = graph_masks(tier, seed)
     for cls in ("CNF", "OPB"):
         for n, masks in gm:
-            for as_nx in (False, True):
-                if as_nx and n > 3:
+            for as_nx in (False, True, "duck"):
+                if as_nx and n > (4 if as_nx == "duck" else 3):
                     continue
                 if n <= 4 or not quick:
                     for ch in chunks(masks, 4 if n >= 4 else 8):
@@ -558,6 +558,7 @@ def workload(tier, seed):
                 for ch in chunks(prs, 16):
                     yield "iso", {"cls": cls, "n1": n1, "n2": n2, "pairs": ch, "as_nx": False}
         yield "iso", {"cls": cls, "n1": 2, "n2": 2, "pairs": [(0, 0), (0, 1), (1, 1)], "as_nx": True}
+        yield "iso", {"cls": cls, "n1": 3, "n2": 3, "pairs": [(m1, m2) for m1 in range(8) for m2 in (0, 3, 5, 7)], "as_nx": "duck"}
         import random
         r = random.Random("c02iso-%d" % seed)
         prs = [(r.getrandbits(6), r.getrandbits(6)) for _ in range(80)] if quick else \
@@ -588,6 +589,7 @@ def workload(tier, seed):
                 for ch in chunks(gmasks, 8):
                     yield "subgraph", {"cls": cls, "N": N, "k": k, "gmasks": ch, "hmasks": hmasks, "as_nx": False}
         yield "subgraph", {"cls": cls, "N": 3, "k": 2, "gmasks": [0, 3, 7], "hmasks": [0, 1], "as_nx": True}
+        yield "subgraph", {"cls": cls, "N": 4, "k": 3, "gmasks": [0, 7, 21, 45, 63], "hmasks": [0, 3, 7], "as_nx": "duck"}
         for d in (9, 10) if quick else (9, 10, 11, 12):
             yield "tseitin_highdeg", {"cls": cls, "d": d}
         for i in range(2 if quick else 24):
